@@ -429,6 +429,126 @@ def show(t) -> str:
     return str(t)
 
 
+def _enum_values_of(ctx: Ctx, m, e: ast.expr, depth: int = 0):
+    """Values of the enum class an expression denotes: a class name, a module constant bound to one, or
+    `get_protocol(<constant version>).<Enum>`."""
+    I = ctx.I
+    if depth > 4:
+        return None
+    if isinstance(e, ast.Name):
+        d = ctx.prog.resolve_name(m, e.id)
+        if d is not None and d.kind == "class" and I.folder.is_enum(d.obj):
+            return sorted(I.folder.enum_values(d.obj))
+        if d is not None and d.kind == "const":
+            return _enum_values_of(ctx, d.module, d.obj, depth + 1)
+        return None
+    if isinstance(e, ast.Attribute) and isinstance(e.value, ast.Call) and norm(e.value.func).endswith("get_protocol") and len(e.value.args) == 1:
+        try:
+            ver = I.folder.plain(I.folder.fold(m, e.value.args[0]))
+        except Unfoldable:
+            return None
+        if ver in ctx.versions:
+            try:
+                return sorted(I.folder.enum_values(I.vclass(ver, e.attr)))
+            except Exception:  # noqa: BLE001
+                return None
+    if isinstance(e, ast.Attribute):
+        d = ctx.prog.resolve_expr(m, e)
+        if d is not None and d.kind == "class" and I.folder.is_enum(d.obj):
+            return sorted(I.folder.enum_values(d.obj))
+    return None
+
+
+def _int_of(ctx: Ctx, m, e: ast.expr):
+    if isinstance(e, ast.Constant) and isinstance(e.value, int):
+        return e.value
+    if isinstance(e, ast.BinOp) and isinstance(e.op, (ast.Add, ast.Sub)):
+        a, b = _int_of(ctx, m, e.left), _int_of(ctx, m, e.right)
+        if a is None or b is None:
+            return None
+        return a + b if isinstance(e.op, ast.Add) else a - b
+    if isinstance(e, ast.Call) and isinstance(e.func, ast.Name) and e.func.id in ("min", "max", "len") and len(e.args) == 1:
+        vals = _enum_values_of(ctx, m, e.args[0])
+        if vals:
+            return {"min": min(vals), "max": max(vals), "len": len(vals)}[e.func.id]
+        return None
+    try:
+        v = ctx.folder.plain(ctx.folder.fold(m, e))
+    except Unfoldable:
+        return None
+    return v if isinstance(v, int) and not isinstance(v, bool) else None
+
+
+def generated_subscriptions(ctx: Ctx, chk, rule: str, conn) -> None:
+    """Subscriptions generated from the command numbers instead of a literal list:
+    self._subscribe(f"{self.in_prefix}/+/+/{c}/+/+", ...) for c in <range / enum>."""
+    I = ctx.I
+    m = conn.module
+    subs = [n for n in ctx.own_nodes(conn) if isinstance(n, ast.Call) and norm(n.func) == "self._subscribe"]
+    if len(subs) != 1 or not subs[0].args or not isinstance(subs[0].args[0], ast.JoinedStr):
+        raise AnalysisError(f"TOPIC-MAP: subscription shape not recognised in {conn.fq}")
+    s_ = subs[0]
+    js = s_.args[0]
+    parts = js.values
+    shape_ok = len(parts) == 4 and isinstance(parts[0], ast.FormattedValue) and norm(parts[0].value) == "self.in_prefix" and isinstance(parts[1], ast.Constant) and parts[1].value == "/+/+/" and isinstance(parts[2], ast.FormattedValue) and isinstance(parts[2].value, ast.Name) and isinstance(parts[3], ast.Constant) and parts[3].value == "/+/+"
+    if not shape_ok:
+        raise AnalysisError(f"TOPIC-MAP: subscription topic `{norm(js)[:60]}` not recognised")
+    var = parts[2].value.id
+    binders = [n for n in ctx.own_nodes(conn) if isinstance(n, (ast.For, ast.comprehension)) and isinstance(n.target, ast.Name) and n.target.id == var]
+    if len(binders) != 1:
+        raise AnalysisError("TOPIC-MAP: the command variable of the subscription topic is not bound by one loop")
+    it = binders[0].iter
+    vals = None
+    if isinstance(it, ast.Call) and isinstance(it.func, ast.Name) and it.func.id == "range" and 1 <= len(it.args) <= 2:
+        b = [_int_of(ctx, m, a) for a in it.args]
+        if all(x is not None for x in b):
+            vals = list(range(*b))
+    else:
+        ev = _enum_values_of(ctx, m, it)
+        if ev is not None:
+            vals = ev
+        elif isinstance(it, ast.Call) and isinstance(it.func, ast.Name) and it.func.id in ("list", "tuple", "sorted") and len(it.args) == 1:
+            vals = _enum_values_of(ctx, m, it.args[0])
+    if vals is None:
+        raise AnalysisError(f"TOPIC-MAP: cannot enumerate `{norm(it)[:60]}`")
+    commands = sorted(I.folder.enum_values(I.vclass(ctx.versions[0], "Command")))
+    chk.instance(rule)
+    key = f"{conn.fq}::subscribed-commands"
+    if sorted(vals) == commands and not (isinstance(binders[0], ast.comprehension) and binders[0].ifs):
+        chk.ok(rule, key, f"one subscription '<in-prefix>/+/+/<c>/+/+' for c in {commands}", ctx.loc(conn, s_))
+    else:
+        chk.refute(rule, key, f"subscriptions are generated for the commands {sorted(vals)}{' (filtered)' if isinstance(binders[0], ast.comprehension) and binders[0].ifs else ''}, the statement requires exactly {commands}: messages of a missing command are never received", ctx.loc(conn, s_))
+    chk.instance(rule)
+    key = f"{conn.fq}::subscribe-loop"
+    parents = ctx.prog.parents
+    cond = False
+    cur = s_
+    while cur in parents and cur is not conn.node:
+        par = parents[cur]
+        if isinstance(par, (ast.If, ast.IfExp, ast.While, ast.ExceptHandler)):
+            cond = True
+        cur = par
+    awaited = isinstance(parents.get(s_), ast.Await)
+    if not awaited:
+        gathers = [n for n in ctx.own_nodes(conn) if isinstance(n, ast.Await) and isinstance(n.value, ast.Call) and norm(n.value.func).endswith("gather")]
+        lst = None
+        cur = s_
+        while cur in parents and cur is not conn.node:
+            par = parents[cur]
+            if isinstance(par, ast.Call) and isinstance(par.func, ast.Attribute) and par.func.attr == "append":
+                lst = norm(par.func.value)
+                break
+            if isinstance(par, ast.Assign) and len(par.targets) == 1 and isinstance(par.targets[0], ast.Name):
+                lst = par.targets[0].id
+                break
+            cur = par
+        awaited = bool(lst) and any(any(isinstance(a_, ast.Starred) and norm(a_.value) == lst for a_ in g_.value.args) for g_ in gathers)
+    if not cond and awaited:
+        chk.ok(rule, key, "every generated topic is subscribed under the in-prefix and awaited", ctx.loc(conn, s_))
+    else:
+        chk.refute(rule, key, f"subscription loop: {'conditional subscribe' if cond else 'subscribe coroutine is never awaited'}", ctx.loc(conn, s_))
+
+
 def subscriptions(ctx: Ctx, chk, rule: str) -> None:
     mt = ctx.cls(MT)
     conn = mt.find_method("connect")
@@ -436,6 +556,9 @@ def subscriptions(ctx: Ctx, chk, rule: str) -> None:
     chk.instance(rule)
     # literal topic list
     lists = [(n.targets[0].id, n.value) for n in ctx.own_nodes(conn) if isinstance(n, ast.Assign) and isinstance(n.targets[0], ast.Name) and isinstance(n.value, ast.List) and n.value.elts and all(isinstance(e, ast.Constant) and isinstance(e.value, str) for e in n.value.elts)]
+    if not lists:
+        generated_subscriptions(ctx, chk, rule, conn)
+        return
     if len(lists) != 1:
         raise AnalysisError(f"TOPIC-MAP: subscription list literal not found in {conn.fq}")
     lname, lval = lists[0]
@@ -550,6 +673,12 @@ def fifo1(ctx: Ctx, chk) -> None:
     # constructor
     chk.instance(rule)
     qs = [n for n in ctx.own_nodes(init) if isinstance(n, (ast.Assign, ast.AnnAssign)) and norm(n.targets[0] if isinstance(n, ast.Assign) else n.target) == "self._incoming_messages"]
+    if not qs:
+        # a queue object created in the class body is ONE queue shared by every transport instance
+        for c_ in mt.repo_mro():
+            if "_incoming_messages" in c_.attrs:
+                chk.refute(rule, f"{c_.fq}._incoming_messages::per-instance", f"the incoming queue is created in the class body of {c_.name} (`{norm(c_.attrs['_incoming_messages'])[:50]}`) and not per instance: all MQTT transports of the process share one queue, so a read on one transport returns (or steals) the messages and errors of another", f"{c_.module.relpath}:{c_.attrs['_incoming_messages'].lineno}")
+                return
     if len(qs) != 1 or not isinstance(qs[0].value, ast.Call):
         raise AnalysisError("FIFO-1: queue construction not found")
     qc = qs[0].value
